@@ -214,26 +214,32 @@ theorem run_assertRunningIsChild_fail {n : Nat} {name : String} {s : State} (h :
 
 /-! ## (f) `observabilityChange` -/
 
+/-- the note `observability_change` logs for a user-defined expert: node, new observability, and
+whether the engine is stabilising (what the user's callback can see through `is_stabilising()`) -/
+def obsNote (er : ExpertRec) (nowObservable : Bool) (s : State) : Event :=
+  .note s!"obschange n{er.node} {nowObservable} stab={s.status != .notStabilising}"
+
 theorem observabilityChange_true_run {e : Nat} {s : State} {er : ExpertRec}
     (he : s.experts[e]? = some er) (hpk : er.pk = none) :
     (observabilityChange e true).run.run s =
-      (.ok (), { s with log := .note s!"obschange n{er.node} {true}" :: s.log }) := by
+      (.ok (), { s with log := obsNote er true s :: s.log }) := by
   have h1 : er.pk.isNone = true := by rw [hpk]; rfl
   unfold observabilityChange
   rw [run_bind_ok (run_getExpert_some he)]
-  simp only [h1, if_true, run_bind_logEv]
+  simp only [h1, if_true, run_bind_get, run_bind_logEv]
   rfl
 
 theorem observabilityChange_false_run {e : Nat} {s : State} {er : ExpertRec}
     (he : s.experts[e]? = some er) (hpk : er.pk = none) :
     (observabilityChange e false).run.run s =
       (.ok (), putExpert e { er with willFireAllCallbacks := true, numInvalidChildren := 0 }
-        { s with log := .note s!"obschange n{er.node} {false}" :: s.log }) := by
+        { s with log := obsNote er false s :: s.log }) := by
   have h1 : er.pk.isNone = true := by rw [hpk]; rfl
   unfold observabilityChange
   rw [run_bind_ok (run_getExpert_some he)]
-  simp only [h1, if_true, run_bind_logEv, Bool.not_false]
+  simp only [h1, if_true, run_bind_get, run_bind_logEv, Bool.not_false]
   rw [run_modExpert_some _ (by exact he)]
+  rfl
 
 /-- an internal per-key operator node (`pk ≠ none`): the same without the log line -/
 theorem observabilityChange_false_run_pk {e : Nat} {s : State} {er : ExpertRec}
